@@ -317,11 +317,61 @@ def divergenceMat (gs : List G) (dim : Nat) (locals : List (List Trip)) : Mat :=
   let r := blockDiagAux 0 0 ((gs.zip locals).map (fun x => ⟨x.1.cells * dim, x.1.faces * dim, kronI x.2 dim⟩))
   ⟨r.1, r.2.1, r.2.2⟩
 
+/-! ### entry points: argument checks of the wrappers -/
+
+/-- `len(set(subdomains))` -/
+def setLen : List Nat → Nat
+  | [] => 0
+  | c :: l => if c ∈ l then setLen l else setLen l + 1
+
+/-- `SubdomainProjections.__init__`: `ValueError` if a subdomain occurs more than once -/
+def ctorCheck (ids : List Nat) : Except Err Unit :=
+  if setLen ids < ids.length then .error .valueError else .ok ()
+
+/-- `cell_/face_restriction/prolongation(subdomains)`: `ValueError` unless the argument is a list
+    (checked before anything else), then the projection proper -/
+def subCall (restrict useFaces isList : Bool) (gs : List G) (dim : Nat) (sel : List Nat) : Except Err Mat :=
+  if !isList then .error .valueError
+  else if restrict then restriction useFaces gs dim sel else prolongation useFaces gs dim sel
+
+/-! ### boundary faces from the tag mask -/
+
+/-- `np.where(mask)[0]` (running index `i`) -/
+def whereTrue : Nat → List Bool → List Nat
+  | _, [] => []
+  | i, b :: bs => if b then i :: whereTrue (i + 1) bs else whereTrue (i + 1) bs
+
+/-- grid data as `BoundaryGrid.set_projections` reads it: `num_faces = len(mask)`,
+    boundary faces `= np.where(tags["domain_boundary_faces"])[0]` -/
+def G.ofTags (cells gdim : Nat) (mask : List Bool) : G := ⟨cells, mask.length, gdim, whereTrue 0 mask⟩
+
 /-! ### well-formedness of the grid data (hypotheses of the theorems) -/
 
 /-- a real grid: at least one cell; a 0-d grid has no faces, a grid of positive dimension has some -/
 def G.wf (g : G) : Prop := 0 < g.cells ∧ (g.gdim = 0 → g.faces = 0) ∧ (0 < g.gdim → 0 < g.faces)
 
 instance (g : G) : Decidable g.wf := by unfold G.wf; infer_instance
+
+/-! ### the decidable hypotheses of the theorems, evaluated by the driver on every case -/
+
+def hypGrids (gs : List G) : Bool :=
+  gs.all (fun g => decide g.wf && decide g.bfaces.Nodup && g.bfaces.all (fun b => decide (b < g.faces)))
+
+def hypMortar (gs : List G) (intfs : List Intf) (toMortar isPrimary : Bool) : Bool :=
+  match intfs with
+  | [] => true
+  | i0 :: _ =>
+    let uf := decide (i0.codim = 1) && isPrimary
+    (i0.codim == 1 || i0.codim == 2) && intfs.all (fun i => i.codim == i0.codim) &&
+    intfs.all (fun i =>
+      match (if isPrimary then i.prim else i.sec) with
+      | some p =>
+        (match gs[p]? with
+         | some g => i.mat.all (fun t => decide ((if toMortar then t.2.1 else t.1) < sizeOf uf g))
+         | none => false)
+      | none => true)
+
+def hypSign (intfs : List Intf) : Bool :=
+  intfs.all (fun i => i.sides == 1 || i.left + i.right == i.cells)
 
 end PorepyVerif.C27
